@@ -11,7 +11,7 @@ def repo_commits(prefix):
 CHECKS = {
  "C01": dict(tech="reference-model monitor (M-LEX position-set NFA) over Scan() results of compiled generated lexers",
    text="Exploration: random lexical grammars are run through the real gocc, the generated lexer is compiled and its Scan() results on hostile inputs are compared token by token (type, literal, count, sticky EOF) with an independent macro-expanding NFA simulation. Held on the executions produced, nothing more.",
-   note="Trusts M-LEX as a reading of the statement; regular definitions restricted to shapes S1/S2 (known finding F3); grammars of bounded size.", ref="4/C01"),
+   note="Trusts M-LEX as a reading of the statement; regular definitions acyclic; grammars of bounded size.", ref="4/C01"),
  "C08": dict(tech="reference-model monitor (M-POS recomputation from raw bytes + tiling check) over Scan() results",
    text="Exploration: every token (incl. INVALID and EOF) returned by compiled generated lexers on position-hostile inputs is checked against offsets/lines/columns recomputed from the raw input, literal == input slice, no overlap, and exact tiling by tokens plus ignored lexemes.",
    note="Trusts M-POS/M-LEX; same generator domain as C01.", ref="4/C08"),
